@@ -1,6 +1,6 @@
 // C13: size limits are enforced on every transport, and traffic within them is accepted.
 //
-// Plain mode (real goroutines, real time). Four parts:
+// Plain mode (real goroutines, real time). Five parts:
 //
 //	batcher  every vector of 1..6 packets x every maxPayload through the real clientSocket.Send /
 //	         writeWritablePackets with a recording transport named "polling" (pure enumeration);
@@ -8,10 +8,12 @@
 //	         Content-Length, chunked, or with a Content-Length smaller than the body (ServeHTTP with a
 //	         counting body; plus the chunked/declared cases through a real net/http server);
 //	ws       real loopback (httptest.NewServer + eio.Dial, transport websocket), both directions;
-//	wt       the WebTransport ServerTransport read loop over a harness stream (limit x length x chunking).
+//	wt       the WebTransport ServerTransport read loop over a harness stream (limit x length x chunking);
+//	wte2e    a real eio.Server behind a real webtransport.Server (HTTP/3 over QUIC on UDP loopback) and a raw
+//	         WebTransport client session of the harness (limit configuration x length x text/binary).
 //
 // Nothing is judged by elapsed time: verdicts in the loopback parts wait for an event (delivery of a
-// barrier message sent after the tested one, or a close callback) with a 60 s deadline; a deadline
+// barrier message sent after the tested one, or a close callback) with a 60 s deadline (wte2e: 20 s); a deadline
 // that expires is recorded as a cap, never as a violation.
 package main
 
@@ -175,7 +177,7 @@ func main() {
 		tierDef = "quick"
 	}
 	tier := flag.String("tier", tierDef, "quick|thorough")
-	only := flag.String("only", "", "comma separated subset of parts: batcher,polling,ws,wt")
+	only := flag.String("only", "", "comma separated subset of parts: batcher,polling,ws,wt,wte2e")
 	replay := flag.String("replay", "", "replay file written by an earlier run")
 	flag.Parse()
 
@@ -188,7 +190,7 @@ func main() {
 	}
 
 	r.Rule = "batcher: one evaluation = one (packet vector, maxPayload) pair pushed through the real clientSocket.Send; vectors of 1..6 packets (quick: 1..5), data sizes {0,1,2,3,4,6,9}, text/binary in the first two positions, maxPayload 0..(encoded size+8); non-trivial = the batcher split the vector at least once. " +
-		"polling/ws/wt: one evaluation = one (limit, message size, declaration or direction or chunking) case on a fresh server; non-trivial = the case must trigger or just miss the limit mechanism (size >= limit-1) or lies around the WebSocket library's 32 KiB default (size >= 32767). All matrices are run completely."
+		"polling/ws/wt/wte2e: one evaluation = one (limit, message size, declaration or direction or chunking or text/binary) case on a fresh server (wte2e: a fresh WebTransport session on the server of its limit configuration); non-trivial = the case must trigger or just miss the limit mechanism (size >= limit-1) or lies around the WebSocket library's 32 KiB default (size >= 32767). All matrices are run completely."
 
 	want := func(p string) bool {
 		if *only == "" {
@@ -210,6 +212,7 @@ func main() {
 		{"polling", runPolling},
 		{"ws", runWS},
 		{"wt", runWT},
+		{"wte2e", runWTE2E},
 	}
 	stats := map[string]partStats{}
 	var smu sync.Mutex
@@ -261,7 +264,7 @@ func main() {
 	r.HarnessErrs = append(r.HarnessErrs, sortedKeys(c.harness)...)
 	r.Assumptions = []string{
 		"sizes are boundary sizes only (around each limit and around 32 KiB), not every size up to MaxBufferSize",
-		"WebTransport is exercised at the ServerTransport read loop over a harness stream, not over HTTP/3",
+		"WebTransport is exercised both at the ServerTransport read loop over a harness stream (every chunking of the stream) and end to end over HTTP/3 (QUIC on UDP loopback) against a real eio.Server with a raw client session; end to end the segmentation of the stream is whatever QUIC makes of it",
 		"a Content-Length smaller than the body can only be produced by calling ServeHTTP directly (net/http truncates such bodies itself); chunked bodies are also sent through a real net/http server",
 		"server->client messages larger than the announced maxPayload carry no requirement in the statement; they are run and their outcome recorded only",
 	}
@@ -271,9 +274,9 @@ func main() {
 
 func boundText(c *ctx) string {
 	if c.thorough {
-		return "batcher vectors<=6; polling/ws/wt full matrices (thorough size sets, text+binary)"
+		return "batcher vectors<=6; polling/ws/wt/wte2e full matrices (thorough size sets, text+binary)"
 	}
-	return "batcher vectors<=5; polling/ws/wt full matrices (quick size sets)"
+	return "batcher vectors<=5; polling/ws/wt/wte2e full matrices (quick size sets)"
 }
 
 // ---------------------------------------------------------------- replay
@@ -307,6 +310,8 @@ func doReplay(c *ctx, path string) {
 		st = replayWS(c, f.Replay)
 	case "wt":
 		st = replayWT(c, f.Replay)
+	case "wte2e":
+		st = replayWTE2E(c, f.Replay)
 	default:
 		fmt.Fprintf(os.Stderr, "replay: unknown part %q\n", head.Part)
 		os.Exit(2)
